@@ -73,6 +73,12 @@ def dispatch (prop : String) (kv : List (String × String)) : IO Res := do
   | "C20" => match get kv "kind" with
     | some "dump" => LiveProps.runLive20 kv
     | _ => return dispatchPure prop kv
+  | "C09" => match get kv "kind" with
+    | some "dump" => LiveProps.runLive0910 "C09" kv
+    | _ => return dispatchPure prop kv
+  | "C10" => match get kv "kind" with
+    | some "dump" => LiveProps.runLive0910 "C10" kv
+    | _ => return dispatchPure prop kv
   | "C07" => match get kv "kind" with
     | some "dump" => LiveProps.runLive07 kv
     | _ => return .bad "C07 kind"
